@@ -49,6 +49,10 @@ type verifStubState struct {
 	jsonMap map[string]interface{}
 	// per-buffer decode script: the decoder yields byBuf[i].g1 (nil = error) for exactly that buffer
 	byBuf []verifBufClaims
+	// component list being decoded: the window of the input handed to the container's own
+	// Unmarshal method, and the container whose elements the element decoder then yields
+	swWin []byte
+	swSrc ISwComponents
 }
 
 type verifBufClaims struct {
@@ -137,6 +141,9 @@ func (verifDM) Unmarshal(data []byte, v interface{}) error {
 	if u, ok := v.(cbor.Unmarshaler); ok {
 		return u.UnmarshalCBOR(data)
 	}
+	if p, ok := v.(*[]*SwComponent); ok {
+		return verifFillSwValues(p, data)
+	}
 	verifStub.bufs = append(verifStub.bufs, data)
 	verifStub.dsts = append(verifStub.dsts, v)
 	if g, scripted := verifScriptFor(data); scripted {
@@ -145,8 +152,7 @@ func (verifDM) Unmarshal(data []byte, v interface{}) error {
 		}
 		switch p := v.(type) {
 		case *p1Claims:
-			verifFillP1(p, g.c)
-			return nil
+			return verifFillP1(p, g.c, data, false)
 		case *p2Claims:
 			return verifErrStub
 		}
@@ -159,14 +165,12 @@ func (verifDM) Unmarshal(data []byte, v interface{}) error {
 		if verifStub.p1 == nil || verifStubFail("dm.err.claims") {
 			return verifErrStub
 		}
-		verifFillP1(p, verifStub.p1.c)
-		return nil
+		return verifFillP1(p, verifStub.p1.c, data, false)
 	case *p2Claims:
 		if verifStub.p2 == nil || verifStubFail("dm.err.claims") {
 			return verifErrStub
 		}
-		verifFillP2(p, verifStub.p2.c)
-		return nil
+		return verifFillP2(p, verifStub.p2.c, data, false)
 	}
 	// the anonymous selector struct { Profile string `cbor:"265,keyasint"` }
 	if len(data) == 0 || verifStubFail("dm.err.selector") {
@@ -254,31 +258,84 @@ func verifCopyField(dst, src interface{}) {
 	}
 }
 
-func verifFillP1(p *p1Claims, src *P1Claims) {
+// verifFillSw: the component-list member. Both codecs hand a WINDOW OF THE INPUT (not a copy)
+// to the destination container's own Unmarshal method, which in turn asks the codec for the
+// elements; the stub follows that protocol so that the container's method runs for real.
+func verifFillSw(dst, src *ISwComponents, data []byte, isJSON bool) error {
+	if *src == nil {
+		return nil // key absent: destination untouched
+	}
+	if *dst == nil {
+		return verifErrStub // a list cannot be decoded into a nil interface
+	}
+	win := data
+	if len(data) >= 2 {
+		win = data[1:] // a proper window wherever the input has room for one
+	}
+	prevW, prevS := verifStub.swWin, verifStub.swSrc
+	verifStub.swWin, verifStub.swSrc = win, *src
+	var err error
+	if isJSON {
+		if u, ok := (*dst).(json.Unmarshaler); ok {
+			err = u.UnmarshalJSON(verifStub.swWin)
+		} else {
+			err = verifErrStub
+		}
+	} else {
+		if u, ok := (*dst).(cbor.Unmarshaler); ok {
+			err = u.UnmarshalCBOR(verifStub.swWin)
+		} else {
+			err = verifErrStub
+		}
+	}
+	verifStub.swWin, verifStub.swSrc = prevW, prevS
+	return err
+}
+
+// verifFillSwValues: the element decoder: yields the scripted container's elements for the
+// window announced by verifFillSw (a fresh slice: decoders allocate), an error otherwise
+func verifFillSwValues(p *[]*SwComponent, data []byte) error {
+	if verifStub.swSrc == nil || len(data) == 0 || len(verifStub.swWin) != len(data) || &data[0] != &verifStub.swWin[0] {
+		return verifErrStub
+	}
+	src, ok := verifStub.swSrc.(*SwComponents[*SwComponent])
+	if !ok {
+		return verifErrStub
+	}
+	out := make([]*SwComponent, 0, len(src.values))
+	out = append(out, src.values...)
+	if len(out) == 0 {
+		out = nil
+	}
+	*p = out
+	return nil
+}
+
+func verifFillP1(p *p1Claims, src *P1Claims, data []byte, isJSON bool) error {
 	verifCopyField(&p.Profile, &src.Profile)
 	verifCopyField(&p.ClientID, &src.ClientID)
 	verifCopyField(&p.SecurityLifeCycle, &src.SecurityLifeCycle)
 	verifCopyField(&p.ImplID, &src.ImplID)
 	verifCopyField(&p.BootSeed, &src.BootSeed)
 	verifCopyField(&p.CertificationReference, &src.CertificationReference)
-	verifCopyField(&p.SwComponents, &src.SwComponents)
 	verifCopyField(&p.NoSwMeasurements, &src.NoSwMeasurements)
 	verifCopyField(&p.Nonce, &src.Nonce)
 	verifCopyField(&p.InstID, &src.InstID)
 	verifCopyField(&p.VSI, &src.VSI)
+	return verifFillSw(&p.SwComponents, &src.SwComponents, data, isJSON)
 }
 
-func verifFillP2(p *p2Claims, src *P2Claims) {
+func verifFillP2(p *p2Claims, src *P2Claims, data []byte, isJSON bool) error {
 	verifCopyField(&p.Profile, &src.Profile)
 	verifCopyField(&p.ClientID, &src.ClientID)
 	verifCopyField(&p.SecurityLifeCycle, &src.SecurityLifeCycle)
 	verifCopyField(&p.ImplID, &src.ImplID)
 	verifCopyField(&p.BootSeed, &src.BootSeed)
 	verifCopyField(&p.CertificationReference, &src.CertificationReference)
-	verifCopyField(&p.SwComponents, &src.SwComponents)
 	verifCopyField(&p.Nonce, &src.Nonce)
 	verifCopyField(&p.InstID, &src.InstID)
 	verifCopyField(&p.VSI, &src.VSI)
+	return verifFillSw(&p.SwComponents, &src.SwComponents, data, isJSON)
 }
 
 // verifJSONMarshal is what the engine runs for encoding/json.Marshal.
@@ -320,14 +377,14 @@ func verifJSONUnmarshal(data []byte, v interface{}) error {
 		if verifStub.p1 == nil || verifStubFail("json.err.claims") {
 			return verifErrStub
 		}
-		verifFillP1(p, verifStub.p1.c)
-		return nil
+		return verifFillP1(p, verifStub.p1.c, data, true)
 	case *p2Claims:
 		if verifStub.p2 == nil || verifStubFail("json.err.claims") {
 			return verifErrStub
 		}
-		verifFillP2(p, verifStub.p2.c)
-		return nil
+		return verifFillP2(p, verifStub.p2.c, data, true)
+	case *[]*SwComponent:
+		return verifFillSwValues(p, data)
 	}
 	return verifErrStub
 }
